@@ -94,7 +94,15 @@ EqValue(x, y) ==
   /\ (x.cls = "QH" /\ y.cls = "QH" => ~QMismatch(x, y))
 
 \* ---- scalars (index into a table; the harness maps 1 -> int -1, 2 -> float 2.0, 3 -> complex 1j) ----------
-ScalarVal(s) == CASE s = 1 -> Neg(ROne) [] s = 2 -> FromInt(2) [] s = 3 -> RI
+\* The spec value is just the number; the harness supplies it in the listed Python / numpy type:
+\*   1 int -1          2 float 2.0        3 complex 1j        4 int 0
+\*   5 np.int8 -1      6 np.int16 2       7 np.int32 -2       8 np.int64 3
+\*   9 np.uint8 3     10 np.uint16 2     11 np.uint32 3      12 np.uint64 2
+\*  13 np.float32 2.0 14 np.float64 -1.0 15 np.complex64 1j  16 np.complex128 1j   17 int -3
+ScalarNum == << -1, 2, 0, 0, -1, 2, -2, 3, 3, 2, 3, 2, 2, -1, 0, 0, -3 >>
+ScalarVal(s) == IF s \in {3, 15, 16} THEN RI ELSE FromInt(ScalarNum[s])
+\* np.complex64 is neither a Python complex nor an np.floating: it is not in COEFFICIENT_TYPES, both behaviours conform
+ScalarOut(s) == IF s = 15 THEN "either" ELSE "ok"
 
 \* ---- pools of classes / annotations / values ----------------------------------
 FClsPool == { <<"TF", NoneF>>, <<"TF", <<4, 2, 0>> >>, <<"TF", <<4, 2, 2>> >>, <<"OF", <<>> >> }
